@@ -135,6 +135,8 @@ func init() {
 			build: func(r *Result, vals map[string]string) (interface{}, bool) { return "fixed scenario", true }}
 	}
 	// keys may name one obligation ("<function>#<obligation substring>"): looked up before the function key
+	scenario(".(*DB).UpdateById#key-is-id", ".", "clover_replay_test.go", "TestVerifReplayUpdateRewritesId")
+	scenario(".(*DB).replaceDocs#key-is-id", ".", "clover_replay_test.go", "TestVerifReplayUpdateRewritesId")
 	scenario(".(*DB).DeleteById#size-accounts", ".", "clover_replay_test.go", "TestVerifReplayDeleteAbsent")
 	imp := &replayFamily{pkgDir: ".", testFile: "clover_replay_test.go", testName: "TestVerifReplayImport",
 		build: func(r *Result, vals map[string]string) (interface{}, bool) { return "fixed scenario", true }}
